@@ -15,6 +15,8 @@ import (
 	"strconv"
 	"strings"
 	"sync"
+	"sync/atomic"
+	"time"
 	"testing"
 
 	"pgregory.net/rapid"
@@ -365,10 +367,48 @@ func (s *Suite) recordViolation(v Violation) {
 	s.violations = append(s.violations, v)
 }
 
+// ---- watchdog: termination is observed, not proved ----
+
+type watchSlot struct {
+	start time.Time
+	prop  string
+	js    func() []byte
+}
+
+var (
+	watchCur   atomic.Pointer[watchSlot]
+	watchOnce  sync.Once
+	WatchLimit = 30 * time.Second
+)
+
+func (s *Suite) watch(prop string, js func() []byte) {
+	watchOnce.Do(func() {
+		go func() {
+			for {
+				time.Sleep(500 * time.Millisecond)
+				w := watchCur.Load()
+				if w != nil && time.Since(w.start) > WatchLimit {
+					// the case did not return: record it as a hang and stop the process
+					// (the goroutine that is stuck cannot be cancelled)
+					s.recordViolation(Violation{Prop: w.prop, Case: w.js(), Discs: []Disc{{Kind: "hang", Where: "watchdog",
+						Detail: fmt.Sprintf("case did not return within %v", WatchLimit)}}})
+					s.Write()
+					os.Exit(1)
+				}
+			}
+		}()
+	})
+	watchCur.Store(&watchSlot{start: time.Now(), prop: prop, js: js})
+}
+
+func unwatch() { watchCur.Store(nil) }
+
 // Eval runs one directly enumerated case (no rapid). Returns true if it passed.
 func Eval[C any](s *Suite, prop string, cs C, run func(C, *Ctx)) bool {
 	c := &Ctx{}
+	s.watch(prop, func() []byte { b, _ := json.Marshal(cs); return b })
 	Guard(c, "harness", func() { run(cs, c) })
+	unwatch()
 	bad := s.Finish(prop, c, func() []byte { b, _ := json.Marshal(cs); return b })
 	if len(bad) > 0 {
 		b, _ := json.Marshal(cs)
@@ -430,9 +470,11 @@ func Rapid[C any](t *testing.T, s *Suite, prop string, checks int, draw func(*ra
 		rapid.Check(t, func(rt *rapid.T) {
 			cs := draw(rt)
 			c := &Ctx{}
+			s.watch(prop, func() []byte { b, _ := json.Marshal(cs); return b })
 			Guard(c, "harness", func() { run(cs, c) })
+			unwatch()
 			bad := s.Finish(prop, c, func() []byte { b, _ := json.Marshal(cs); return b })
-			if len(bad) > 0 {
+			if len(bad) > 0 && os.Getenv("VERIF_SURVEY") == "" {
 				rt.Fatalf("discrepancy: %s@%s: %s", bad[0].Kind, bad[0].Where, bad[0].Detail)
 			}
 			n++
@@ -464,7 +506,9 @@ func RegisterReplay[C any](s *Suite, prop string, run func(C, *Ctx)) {
 		if err := json.Unmarshal(raw, &cs); err != nil {
 			return err
 		}
+		s.watch(prop, func() []byte { return raw })
 		Guard(c, "harness", func() { run(cs, c) })
+		unwatch()
 		return nil
 	}
 }
